@@ -443,3 +443,258 @@ Proof.
     - lia. }
   destruct HS as [S1 S2]. split; intros HC; injection HC; intros HC'; [apply S1 | apply S2]; exact HC'.
 Qed.
+
+(* ------------------------------------------------------------------ the refutation witness for SNMP *)
+(* a well-formed GET of exactly 4095 bytes: one OCTET STRING variable of 4050 bytes followed by the empty variable
+   `30 00` in the last two bytes; the object identifier of that last variable is looked for at offsets 4095, 4096 *)
+Definition snmp_witness : list Z :=
+  [48; 130; 15; 251; 2; 1; 0; 4; 6; 112; 117; 98; 108; 105; 99; 160; 130; 15; 236; 2; 1; 1; 2; 1; 0; 2; 1; 0;
+   48; 130; 15; 223; 48; 130; 15; 217; 6; 1; 43; 4; 130; 15; 210] ++ Z.iter 4050 (cons 65) [48; 0].
+
+Definition is_byteb (x : Z) : bool := (0 <=? x) && (x <? 256).
+Lemma Forall_is_byte d : forallb is_byteb d = true -> Forall is_byte d.
+Proof.
+  induction d as [|x r IH]; cbn [forallb]; intros H; [constructor|].
+  apply andb_prop in H. destruct H as [Hx Hr]. constructor; [unfold is_byteb, is_byte in *; lia | apply IH; exact Hr].
+Qed.
+
+Lemma snmp_witness_bytes : Forall is_byte snmp_witness.
+Proof. apply Forall_is_byte. vm_compute. reflexivity. Qed.
+
+Lemma snmp_witness_len : lenZ snmp_witness = 4095.
+Proof. vm_compute. reflexivity. Qed.
+
+Lemma snmp_witness_oob stale :
+  snmp_udp snmp_request_size (snmp_request_size - snmp_recv_slack) stale snmp_witness = Got OOB.
+Proof. vm_compute. reflexivity. Qed.
+
+(* the same datagram one byte shorter (the last variable cut) is harmless *)
+Lemma snmp_witness_short_ok stale :
+  snmp_udp snmp_request_size (snmp_request_size - snmp_recv_slack) stale (removelast snmp_witness) = Got Fail.
+Proof. vm_compute. reflexivity. Qed.
+
+(* ================================================================== writes *)
+Lemma post_wr b i v : 0 <= i < bsize b ->
+  post (wr b i v) (fun b' => bsize b' = bsize b /\ forall j, bget b' j = if j =? i then v else bget b j).
+Proof.
+  intros H. unfold wr, in_obj. destruct ((0 <=? i) && (i <? bsize b)) eqn:E; cbn [post]; [|lia].
+  split; [reflexivity | intros j; reflexivity].
+Qed.
+
+Lemma bytes_ok_upd b b' i v : bytes_ok b -> 0 <= v < 256 ->
+  (forall j, bget b' j = if j =? i then v else bget b j) -> bytes_ok b'.
+Proof. intros HB Hv H j. rewrite H. destruct (j =? i); [exact Hv | apply HB]. Qed.
+
+Definition upost {A} (u : udp_out A) (Q : A -> Prop) : Prop := match u with Empty => True | Got r => post r Q end.
+
+Lemma upost_safe {A} (u : udp_out A) Q : upost u Q -> u <> Got OOB /\ u <> Got NoFuel.
+Proof.
+  destruct u as [|r]; cbn [upost]; [split; congruence|].
+  intros H. apply post_safe in H. destruct H as [H1 H2]. split; intros HC; injection HC; auto.
+Qed.
+
+(* ================================================================== ICP *)
+Ltac icp_consts := unfold icp_hdr_size, icp_off_opcode, icp_off_version, icp_off_length, icp_off_reqnum, icp_off_flags,
+  icp_off_pad, icp_sizeof_length, icp_query_prefix, icp_end, icp_invalid, icp_query, icp_hit, icp_miss, icp_err,
+  icp_decho, icp_miss_nofetch, icp_denied, icp_version_2, icp_version_3 in *.
+
+Lemma post_icp_header b len :
+  bytes_ok b -> 0 <= len -> (icp_hdr_size <= len -> icp_hdr_size <= bsize b) ->
+  post (icp_header b len) (fun h => 0 <= i_length h < 65536 /\ 0 <= i_opcode h < 256).
+Proof.
+  intros HB H0 H1. unfold icp_header.
+  destruct (len <? icp_hdr_size) eqn:E.
+  - cbn [post i_length i_opcode]. icp_consts. change (2 ^ (8 * 2)) with 65536.
+    pose proof (Z.mod_pos_bound (len + 1) 65536). lia.
+  - assert (Hs : icp_hdr_size <= bsize b) by (apply H1; lia). icp_consts.
+    eapply post_bind; [apply post_rd; lia|]; cbv beta. intros _ _.
+    eapply post_bind; [apply post_rd_byte; [exact HB | lia]|]; cbv beta. intros op Hop.
+    eapply post_bind; [apply post_rd_byte; [exact HB | lia]|]; cbv beta. intros ver Hver.
+    eapply post_bind; [apply post_be16; [exact HB | lia | lia]|]; cbv beta. intros l Hl.
+    eapply post_bind; [apply post_be32; [exact HB | lia | lia]|]; cbv beta. intros rq _.
+    eapply post_bind; [apply post_be32; [exact HB | lia | lia]|]; cbv beta. intros fl _.
+    eapply post_bind; [apply post_be32; [exact HB | lia | lia]|]; cbv beta. intros pd _.
+    cbn [post i_length i_opcode]. lia.
+Qed.
+
+Definition url_inside (len : Z) (u : option (Z * Z)) : Prop :=
+  match u with Some (o, n) => icp_hdr_size <= o /\ 0 <= n /\ o + n + 1 = len | None => True end.
+
+Lemma post_icp_get_url b h :
+  0 <= i_length h <= bsize b -> post (icp_get_url b h) (url_inside (i_length h)).
+Proof.
+  intros Hl. unfold icp_get_url.
+  set (uo := icp_hdr_size + (if i_opcode h =? icp_query then icp_query_prefix else 0)).
+  assert (Huo : icp_hdr_size <= uo) by (subst uo; destruct (i_opcode h =? icp_query); icp_consts; lia).
+  destruct (i_length h <=? uo) eqn:E1; [exact I|].
+  assert (H20 : 0 <= icp_hdr_size) by (icp_consts; lia).
+  eapply post_bind; [apply post_rd; lia|]; cbv beta. intros last ->.
+  destruct (negb (bget b (i_length h - 1) =? 0)) eqn:E2; [exact I|].
+  eapply post_bind; [apply (post_cstrlen b uo (i_length h - 1)); lia|]; cbv beta. intros n Hn.
+  destruct (uo + n + 1 =? i_length h) eqn:E3; cbn [post url_inside]; [lia | exact I].
+Qed.
+
+Definition class_inside (len : Z) (c : icp_class) : Prop :=
+  match c with IcpQuery u => url_inside len u | IcpReply u => url_inside len u | _ => True end.
+
+Lemma post_icp_dispatch b len :
+  bytes_ok b -> 0 <= len <= bsize b -> post (icp_dispatch b len) (class_inside len).
+Proof.
+  intros HB Hl. unfold icp_dispatch.
+  destruct (len <=? 0) eqn:E0; [exact I|].
+  eapply post_bind; [apply post_icp_header; [exact HB | lia | icp_consts; lia]|]; cbv beta.
+  intros h (Hh1 & Hh2).
+  destruct (negb (len =? i_length h)) eqn:E1; [exact I|].
+  assert (Hlen : len = i_length h) by lia.
+  eapply post_bind.
+  { apply post_idx. unfold icp_get_opcode. destruct (icp_end <? i_opcode h) eqn:E; icp_consts; lia. }
+  cbv beta. intros _ _.
+  destruct (i_opcode h =? icp_query).
+  { eapply post_bind; [apply post_icp_get_url; lia|]; cbv beta. intros u Hu.
+    cbn [post class_inside]. rewrite Hlen. exact Hu. }
+  destruct (is_in (i_opcode h) [icp_hit; icp_decho; icp_miss; icp_denied; icp_miss_nofetch]) eqn:E2.
+  { eapply post_bind.
+    { apply post_idx. unfold is_in in E2. cbn [existsb] in E2. icp_consts. lia. }
+    cbv beta. intros _ _.
+    eapply post_bind; [apply post_icp_get_url; lia|]; cbv beta. intros u Hu.
+    cbn [post class_inside]. rewrite Hlen. exact Hu. }
+  destruct (is_in (i_opcode h) [icp_invalid; icp_err]); exact I.
+Qed.
+
+(* THE bounds theorem for ICP: whatever is received and whatever the static buffer held before, icpHandleUdp and the
+   functions it calls stay inside the buffer, and an extracted URL lies inside the received bytes *)
+Lemma icp_udp_spec size recvmax stale d :
+  Forall is_byte d -> (forall i, is_byte (stale i)) -> 0 <= recvmax < size ->
+  upost (icp_udp size recvmax stale d) (class_inside (Z.min (lenZ d) recvmax)).
+Proof.
+  intros Hd Hs Hr. unfold icp_udp.
+  set (len := Z.min (lenZ d) recvmax).
+  destruct (len <=? 0) eqn:E0; [exact I|]. cbn [upost].
+  set (b0 := recv_buf size stale d len).
+  assert (HB0 : bytes_ok b0) by (apply recv_buf_bytes; assumption).
+  assert (Hsz : bsize b0 = size) by reflexivity.
+  assert (Hlen : 0 < len <= recvmax) by (subst len; lia).
+  eapply (post_bind _ _ (fun _ => True)).
+  { destruct (icp_hdr_size <=? len) eqn:E; [|exact I].
+    eapply post_mono; [apply post_rd; icp_consts; lia|]. intros; exact I. }
+  intros _ _.
+  eapply (post_bind _ _ (fun b => bytes_ok b /\ bsize b = size)).
+  { destruct icp_terminates; [|cbn [post]; auto].
+    eapply post_mono; [apply post_wr; lia|]; cbv beta. intros b' (Hb1 & Hb2).
+    split; [eapply bytes_ok_upd; [exact HB0 | | exact Hb2]; lia | lia]. }
+  intros b (HB & Hbs).
+  destruct (len <? icp_hdr_size) eqn:E1; [exact I|].
+  eapply post_bind; [apply post_rd; icp_consts; lia|]; cbv beta. intros ver _.
+  destruct ((ver =? icp_version_2) || (ver =? icp_version_3)); [|exact I].
+  apply post_icp_dispatch; [exact HB | lia].
+Qed.
+
+Lemma icp_unit_safe size recvmax stale d :
+  Forall is_byte d -> (forall i, is_byte (stale i)) -> 0 <= recvmax < size ->
+  safe (icp_unit size recvmax stale d).
+Proof.
+  intros Hd Hs Hr. apply (post_safe _ (fun _ => True)). unfold icp_unit.
+  set (len := Z.min (lenZ d) recvmax).
+  pose proof (lenZ_nonneg d) as Hn.
+  set (b0 := recv_buf size stale d len).
+  assert (HB0 : bytes_ok b0) by (apply recv_buf_bytes; assumption).
+  assert (Hsz : bsize b0 = size) by reflexivity.
+  eapply post_bind; [apply post_wr; lia|]; cbv beta. intros b (Hb1 & Hb2).
+  assert (HB : bytes_ok b) by (eapply bytes_ok_upd; [exact HB0 | | exact Hb2]; lia).
+  eapply post_bind; [apply post_icp_header; [exact HB | lia | icp_consts; lia]|]; cbv beta.
+  intros h (Hh1 & Hh2).
+  destruct ((0 <? len) && (icp_hdr_size <=? len) && (len =? i_length h)) eqn:E; [|exact I].
+  eapply post_bind; [apply post_icp_get_url; lia|]; cbv beta. intros u _. exact I.
+Qed.
+
+(* ================================================================== HTCP *)
+Definition good (size : Z) (s : hst) : Prop := bytes_ok (hb s) /\ bsize (hb s) = size.
+(* NUL bytes are never un-written (every write of the unpackers stores 0) *)
+Definition ext (s s' : hst) : Prop := forall j, bget (hb s) j = 0 -> bget (hb s') j = 0.
+Definition wrange (lo hi : Z) (s : hst) : Prop := Forall (fun i => lo <= i <= hi) (hw s).
+
+Lemma ext_refl s : ext s s. Proof. intros j H; exact H. Qed.
+Lemma ext_trans a b c : ext a b -> ext b c -> ext a c. Proof. intros H1 H2 j H; apply H2, H1, H. Qed.
+
+Lemma post_hwr size lo hi s i :
+  good size s -> wrange lo hi s -> 0 <= i < size -> lo <= i <= hi ->
+  post (hwr s i) (fun s' => good size s' /\ wrange lo hi s' /\ ext s s' /\ bget (hb s') i = 0).
+Proof.
+  intros (HB & Hs) Hw Hi Hr. unfold hwr.
+  eapply post_bind; [apply post_wr; lia|]; cbv beta. intros b' (Hb1 & Hb2).
+  unfold good, wrange, ext. cbn [post hb hw]. split; [split | split; [|split]].
+  - eapply bytes_ok_upd; [exact HB | | exact Hb2]; lia.
+  - lia.
+  - constructor; [exact Hr | exact Hw].
+  - intros j Hj. rewrite Hb2. destruct (j =? i); [reflexivity | exact Hj].
+  - rewrite Hb2. rewrite Z.eqb_refl. reflexivity.
+Qed.
+
+Lemma parse_uint16_cases b p sz :
+  bytes_ok b -> 0 <= p -> p + sz <= bsize b ->
+  parse_uint16 b p sz = Fail \/ exists l, parse_uint16 b p sz = Ok l /\ 0 <= l < 65536 /\ 2 <= sz.
+Proof.
+  intros HB H0 H1. unfold parse_uint16. destruct (sz <? 2) eqn:E; [left; reflexivity|].
+  pose proof (post_be16 b p HB H0) as H. destruct (be16 b p) as [l| | |]; cbn [post] in H.
+  - right. exists l. split; [reflexivity | split; [apply H; lia | lia]].
+  - left; reflexivity.
+  - exfalso. apply H. lia.
+  - exfalso. apply H. lia.
+Qed.
+
+Definition spec_inside (lo hi : Z) (sp : htcp_spec) : Prop :=
+  match sp_lens sp with
+  | [ml; ul; vl; hl] =>
+    lo <= sp_method sp /\ sp_method sp + ml <= hi /\ lo <= sp_uri sp /\ sp_uri sp + ul <= hi /\
+    lo <= sp_version sp /\ sp_version sp + vl <= hi /\ lo <= sp_hdrs sp /\ sp_hdrs sp + hl <= hi /\
+    0 <= sp_hdrs_sz sp /\ sp_hdrs sp + sp_hdrs_sz sp <= hi /\ 0 <= ml /\ 0 <= ul /\ 0 <= vl /\ 0 <= hl
+  | _ => False
+  end.
+
+Definition opt_inside {A} (P : A -> Prop) (o : option A) : Prop := match o with Some a => P a | None => True end.
+
+(* htcpUnpackSpecifier on [p, p+sz) of a buffer with at least one more byte after that range *)
+Lemma post_htcp_unpack_specifier size s p sz :
+  good size s -> wrange p (p + sz) s -> 0 <= p -> 0 <= sz -> p + sz < size ->
+  post (htcp_unpack_specifier s p sz)
+       (fun '(s', o) => good size s' /\ wrange p (p + sz) s' /\ ext s s' /\ opt_inside (spec_inside p (p + sz)) o).
+Proof.
+  intros HG HW H0 Hsz Hlt. unfold htcp_unpack_specifier.
+  assert (HR : post (Ok (s, @None htcp_spec))
+                 (fun '(s', o) => good size s' /\ wrange p (p + sz) s' /\ ext s s' /\ opt_inside (spec_inside p (p + sz)) o))
+    by (cbn [post opt_inside]; split; [exact HG | split; [exact HW | split; [apply ext_refl | exact I]]]).
+  destruct HG as (HB & HS).
+  destruct (parse_uint16_cases (hb s) p sz HB H0) as [-> | (l1 & -> & Hl1 & Hs1)]; [lia | exact HR |].
+  destruct (sz - 2 <? l1) eqn:E1; [exact HR|].
+  destruct (parse_uint16_cases (hb s) (p + 2 + l1) (sz - 2 - l1) HB) as [-> | (l2 & -> & Hl2 & Hs2)]; [lia | lia | exact HR |].
+  destruct (sz - 2 - l1 - 2 <? l2) eqn:E2; [exact HR|].
+  eapply post_bind; [apply (post_hwr size p (p + sz)); [split; assumption | exact HW | lia | lia]|]; cbv beta.
+  intros s1 ((HB1 & HS1) & HW1 & X1 & Z1).
+  destruct (parse_uint16_cases (hb s1) (p + 2 + l1 + 2 + l2) (sz - 2 - l1 - 2 - l2) HB1) as [E | (l3 & E & Hl3 & Hs3)];
+    [lia | lia | rewrite E | rewrite E].
+  { cbn [post opt_inside]. split; [split; assumption | split; [assumption | split; [assumption | exact I]]]. }
+  destruct (sz - 2 - l1 - 2 - l2 - 2 <? l3) eqn:E3;
+    [cbn [post opt_inside]; split; [split; assumption | split; [assumption | split; [assumption | exact I]]]|].
+  eapply post_bind; [apply (post_hwr size p (p + sz)); [split; assumption | exact HW1 | lia | lia]|]; cbv beta.
+  intros s2 ((HB2 & HS2) & HW2 & X2 & Z2).
+  destruct (parse_uint16_cases (hb s2) (p + 2 + l1 + 2 + l2 + 2 + l3) (sz - 2 - l1 - 2 - l2 - 2 - l3) HB2) as [E' | (l4 & E' & Hl4 & Hs4)];
+    [lia | lia | rewrite E' | rewrite E'].
+  { cbn [post opt_inside]. split; [split; assumption | split; [assumption | split; [eapply ext_trans; eassumption | exact I]]]. }
+  destruct (sz - 2 - l1 - 2 - l2 - 2 - l3 - 2 <? l4) eqn:E4.
+  { cbn [post opt_inside]. split; [split; assumption | split; [assumption | split; [eapply ext_trans; eassumption | exact I]]]. }
+  eapply post_bind; [apply (post_hwr size p (p + sz)); [split; assumption | exact HW2 | lia | lia]|]; cbv beta.
+  intros s3 ((HB3 & HS3) & HW3 & X3 & Z3).
+  eapply post_bind; [apply (post_hwr size p (p + sz)); [split; assumption | exact HW3 | lia | lia]|]; cbv beta.
+  intros s4 ((HB4 & HS4) & HW4 & X4 & Z4).
+  (* the four terminators are in place in the final state *)
+  assert (T1 : bget (hb s4) (p + 2 + l1) = 0) by (apply X4, X3, X2, Z1).
+  assert (T2 : bget (hb s4) (p + 2 + l1 + 2 + l2) = 0) by (apply X4, X3, Z2).
+  assert (T3 : bget (hb s4) (p + 2 + l1 + 2 + l2 + 2 + l3) = 0) by (apply X4, Z3).
+  eapply post_bind; [apply (post_cstrlen (hb s4) (p + 2) (p + 2 + l1)); [lia | lia | exact T1]|]; cbv beta. intros ml Hml.
+  eapply post_bind; [apply (post_cstrlen (hb s4) (p + 2 + l1 + 2) (p + 2 + l1 + 2 + l2)); [lia | lia | exact T2]|]; cbv beta. intros ul Hul.
+  eapply post_bind; [apply (post_cstrlen (hb s4) (p + 2 + l1 + 2 + l2 + 2) (p + 2 + l1 + 2 + l2 + 2 + l3)); [lia | lia | exact T3]|]; cbv beta. intros vl Hvl.
+  eapply post_bind; [apply (post_cstrlen (hb s4) (p + 2 + l1 + 2 + l2 + 2 + l3 + 2) (p + 2 + l1 + 2 + l2 + 2 + l3 + 2 + l4)); [lia | lia | exact Z4]|]; cbv beta. intros hl Hhl.
+  cbn [post opt_inside]. split; [split; assumption | split; [assumption | split]].
+  - eapply ext_trans; [exact X1|]. eapply ext_trans; [exact X2|]. eapply ext_trans; eassumption.
+  - unfold spec_inside. cbn [sp_lens sp_method sp_uri sp_version sp_hdrs sp_hdrs_sz]. lia.
+Qed.
